@@ -165,8 +165,10 @@ ApOpenReq(o, e) ==
       o2 == Check(o1, ~o.closeReturned, "C13", "stream requested after Close() returned")
       o3 == Check(o2, v \notin o.ended, "C12", "a stream that ended for good was requested again")
       o4 == IF isReopen
-            THEN Check(o3, e.off.seq = MaxOf(o.sess[v] \cup {e.off.seq}) /\ e.off.seq \in o.sess[v], "C12",
-                       "re-open after a transient end is not from the latest settled position")
+            THEN Check(Check(o3, e.off.seq = MaxOf(o.sess[v] \cup {e.off.seq}) /\ e.off.seq \in o.sess[v], "C12",
+                             "re-open after a transient end is not from the latest settled position"),
+                       ValidOff(e.off) /\ e.off \in o.origin[v], "C12",
+                       "re-open after a transient end does not carry the settled event's own snapshot / branch")
             ELSE o3
       o5 == Check(o4, o.high[v] < 0 \/ e.off.seq <= o.high[v], "C15",
                   "stream requested from a position the server has not reached")
@@ -405,10 +407,12 @@ ApScrape(o, e) ==
   IF e.closed THEN o
   ELSE
   LET live == o.phase = "open" /\ ~o.closing /\ ~o.closeCalled
+      none == <<0 - 1, 0 - 1, 0 - 1>>
       posOK(v) == IF v \in o.range
-                  THEN e.pos[v] # NoOff /\ e.pos[v].seq = MaxOf(o.sess[v]) /\ e.pos[v] \in o.origin[v]
-                  ELSE e.pos[v] = NoOff
-      lagOf(v) == IF e.pos[v] = NoOff THEN 0 ELSE IF o.shigh[v] > e.pos[v].seq THEN o.shigh[v] - e.pos[v].seq ELSE 0
+                  THEN e.pos[v] # none /\ e.pos[v][1] = MaxOf(o.sess[v])
+                       /\ \E f \in o.origin[v] : <<f.seq, f.ss, f.se>> = e.pos[v]
+                  ELSE e.pos[v] = none
+      lagOf(v) == IF e.pos[v] = none THEN 0 ELSE IF o.shigh[v] > e.pos[v][1] THEN o.shigh[v] - e.pos[v][1] ELSE 0
       RECURSIVE SumL(_)
       SumL(S) == IF S = {} THEN 0 ELSE LET x == CHOOSE y \in S : TRUE IN lagOf(x) + SumL(S \ {x})
       cntOK(v) == \/ e.cnt[v] = o.kcnt[v]
@@ -441,6 +445,7 @@ ApDiedLife(o, e) ==
 \* API-visible state after a step: e.offsets : VB -> Off | NoOff, e.open
 ApState(o, e) ==
   LET bad == {v \in o.range : e.offsets[v] = NoOff \/ e.offsets[v].seq # MaxOf(o.sess[v])}
+      torn == {v \in o.range : e.offsets[v] # NoOff /\ ~(ValidOff(e.offsets[v]) /\ e.offsets[v] \in o.origin[v])}
       stray == {v \in VB \ o.range : e.offsets[v] # NoOff}
       o1 == IF e.open /\ ~o.closing /\ \A v \in VB : ~o.inpush[v]
             THEN Check(o, bad = {}, "C04", "position exposed by the offsets API is not the furthest settled one")
@@ -448,7 +453,9 @@ ApState(o, e) ==
       o2 == IF e.open /\ ~o.closing
             THEN Check(o1, stray = {}, "C04", "position tracked for a vBucket outside the assigned range")
             ELSE o1
-      o3 == Check(o2, o.reopen = {}, "C12", "a transient stream end was not followed by a re-open")
+      o2b == IF e.open /\ ~o.closing
+             THEN Check(o2, torn = {}, "C06", "an offset exposed by the offsets API is torn (fields of two events / snapshots)") ELSE o2
+      o3 == Check(o2b, o.reopen = {}, "C12", "a transient stream end was not followed by a re-open")
       o4 == IF o.phase = "open" /\ ~o.closeCalled /\ ~o.stoppedSeen
             THEN Check(o3, e.active = Cardinality(o.range \ o.ended), "C12",
                        "active-stream count differs from the number of assigned vBuckets not finally ended")
